@@ -397,7 +397,7 @@ impl KotoVm {
 
         let old_frame_count = self.call_stack.len();
 
-        self.call_callable(
+        let call_result = self.call_callable(
             CallInfo {
                 result_register: Some(result_register),
                 frame_base,
@@ -407,7 +407,12 @@ impl KotoVm {
                 packed_arg_count: 0,
             },
             function,
-        )?;
+        );
+        if let Err(error) = call_result {
+            // The call failed, so drop the registers that were prepared for it
+            self.truncate_registers(result_register);
+            return Err(error);
+        }
 
         let result = if self.call_stack.len() == old_frame_count {
             // If the call stack is the same size as before calling call_callable,
@@ -438,8 +443,6 @@ impl KotoVm {
 
     /// Provides the result of running a unary operation on a KValue
     pub fn run_unary_op(&mut self, op: UnaryOp, value: KValue) -> Result<KValue> {
-        use UnaryOp::*;
-
         let old_frame_count = self.call_stack.len();
 
         let result_register = self.next_register();
@@ -447,6 +450,23 @@ impl KotoVm {
 
         self.registers.push(KValue::Null); // `result_register`
         self.registers.push(value); // `value_register`
+
+        if let Err(error) = self.run_unary_op_in_registers(op, result_register, value_register) {
+            // The op failed, so drop the registers that were prepared for it
+            self.truncate_registers(result_register);
+            return Err(error);
+        }
+
+        self.get_overridden_op_result(old_frame_count, result_register)
+    }
+
+    fn run_unary_op_in_registers(
+        &mut self,
+        op: UnaryOp,
+        result_register: u8,
+        value_register: u8,
+    ) -> Result<()> {
+        use UnaryOp::*;
 
         match op {
             Debug => self.run_debug_op(result_register, value_register)?,
@@ -472,7 +492,7 @@ impl KotoVm {
             Size => self.run_size(result_register, value_register, true)?,
         }
 
-        self.get_overridden_op_result(old_frame_count, result_register)
+        Ok(())
     }
 
     /// Provides the result of running a binary operation on a pair of Values
@@ -487,6 +507,24 @@ impl KotoVm {
         self.registers.push(lhs);
         self.registers.push(rhs);
 
+        if let Err(error) =
+            self.run_binary_op_in_registers(op, result_register, lhs_register, rhs_register)
+        {
+            // The op failed, so drop the registers that were prepared for it
+            self.truncate_registers(result_register);
+            return Err(error);
+        }
+
+        self.get_overridden_op_result(old_frame_count, result_register)
+    }
+
+    fn run_binary_op_in_registers(
+        &mut self,
+        op: BinaryOp,
+        result_register: u8,
+        lhs_register: u8,
+        rhs_register: u8,
+    ) -> Result<()> {
         match op {
             BinaryOp::Add | BinaryOp::AddRhs => {
                 self.run_add(result_register, lhs_register, rhs_register)?
@@ -544,7 +582,7 @@ impl KotoVm {
             }
         }
 
-        self.get_overridden_op_result(old_frame_count, result_register)
+        Ok(())
     }
 
     /// Provides the result of running a read operation (i.e. access or index) on a pair of values
@@ -564,17 +602,19 @@ impl KotoVm {
         self.registers.push(container);
         self.registers.push(read_arg);
 
-        match op {
-            ReadOp::Index => {
-                self.run_index(result_register, container_register, read_arg_register)?
-            }
-            ReadOp::Access => {
-                let key_string = match self.clone_register(read_arg_register) {
-                    KValue::Str(s) => s,
-                    other => return unexpected_type("a String", &other),
-                };
-                self.run_access(result_register, container_register, key_string)?;
-            }
+        let op_result = match op {
+            ReadOp::Index => self.run_index(result_register, container_register, read_arg_register),
+            ReadOp::Access => match self.clone_register(read_arg_register) {
+                KValue::Str(key_string) => {
+                    self.run_access(result_register, container_register, key_string)
+                }
+                other => unexpected_type("a String", &other),
+            },
+        };
+        if let Err(error) = op_result {
+            // The op failed, so drop the registers that were prepared for it
+            self.truncate_registers(result_register);
+            return Err(error);
         }
 
         self.get_overridden_op_result(old_frame_count, result_register)
@@ -600,17 +640,18 @@ impl KotoVm {
         self.registers.push(write_arg);
         self.registers.push(write_value);
 
-        match op {
+        let op_result = match op {
             WriteOp::IndexAssign => {
-                self.run_index_assign(container_register, container_register, write_arg_register)?
+                self.run_index_assign(container_register, container_register, write_arg_register)
             }
             WriteOp::AccessAssign => {
-                self.run_access_assign(
-                    container_register,
-                    write_arg_register,
-                    write_value_register,
-                )?;
+                self.run_access_assign(container_register, write_arg_register, write_value_register)
             }
+        };
+        if let Err(error) = op_result {
+            // The op failed, so drop the registers that were prepared for it
+            self.truncate_registers(result_register);
+            return Err(error);
         }
 
         self.get_overridden_op_result(old_frame_count, result_register)
